@@ -13,11 +13,16 @@ def main():
     if '--only' in args:
         i = args.index('--only'); only = args[i + 1]; del args[i:i + 2]
     mdir, name, prop = args[0], args[1], args[2]; checks = args[3:] or [prop]
+    # a check may be given as ID=REGEX to run only the queries whose name matches (a subset of the quick tier)
     out = os.path.join(VERIF, 'seeded', name); os.makedirs(out, exist_ok=True)
     for f in os.listdir(mdir):
         if os.path.isfile(os.path.join(mdir, f)): shutil.copy(os.path.join(mdir, f), out)
     patch = os.path.join(out, 'patch.diff'); demo = os.path.join(out, 'demo.sh')
     wt = '/tmp/seed-wt-%d' % os.getpid()
+    old = {}
+    if os.path.exists(os.path.join(out, 'meta.json')):
+        try: old = json.load(open(os.path.join(out, 'meta.json')))
+        except Exception: old = {}
     meta = {'name': name, 'breaks_property': prop, 'source': 'written by an independent sub-agent given only the property text and a scratch worktree', 'confirmation': {}, 'checks': {}}
     try:
         rc, o = sh('git -C /repo worktree add -q %s HEAD' % wt); assert rc == 0, o
@@ -47,19 +52,22 @@ def main():
     try:
         for c in checks:
             t0 = time.time()
-            cmd = [os.path.join(VERIF, 'check'), c, '--tier', 'quick'] + (['--only', only] if only else [])
+            only_c = only
+            if '=' in c: c, only_c = c.split('=', 1)
+            cmd = [os.path.join(VERIF, 'check'), c, '--tier', 'quick'] + (['--only', only_c] if only_c else [])
             rc, o = sh(cmd, cwd=VERIF, timeout=10800, env=env)
             viol = [l for l in o.splitlines() if l.startswith('VIOLATION')]
             inc = [l for l in o.splitlines() if l.startswith('INCONCLUSIVE')]
             desc = [l.strip() for l in o.splitlines() if l.startswith('   query')]
-            meta['checks'][c] = {'cmd': ' '.join(cmd[1:]), 'exit': rc, 'violation_lines': len(viol), 'inconclusive': len(inc), 'first_violations': desc[:3], 'seconds': round(time.time() - t0)}
+            meta['checks'][c + ('' if not only_c else ' --only ' + only_c)] = {'cmd': ' '.join(cmd[1:]), 'exit': rc, 'violation_lines': len(viol), 'inconclusive': len(inc), 'first_violations': desc[:3], 'seconds': round(time.time() - t0)}
             print('check %s: exit %d, %d VIOLATION, %d INCONCLUSIVE (%ds)' % (c, rc, len(viol), len(inc), time.time() - t0))
             for d in desc[:2]: print('    ' + d[:200])
             if rc == 2:
                 for l in inc[:3]: print('    ' + l[:300])
     finally:
         sh('git -C /repo worktree remove --force %s' % wt2); shutil.rmtree(outdir, ignore_errors=True)
-    meta['detected_by'] = [c for c, v in meta['checks'].items() if v['exit'] == 1]
+    for k, v in old.get('checks', {}).items(): meta['checks'].setdefault(k, v)
+    meta['detected_by'] = sorted(set(c.split()[0] for c, v in meta['checks'].items() if v['exit'] == 1))
     with open(os.path.join(out, 'meta.json'), 'w') as f: json.dump(meta, f, indent=1)
     print('detected by:', meta['detected_by'])
 if __name__ == '__main__': main()
